@@ -22,7 +22,7 @@ pub fn scopes(rep: &Report, checks: Checks) {
     // D: alphabet passes
     let base = if quick { trees(2, 2) } else { trees(3, 3) };
     let names = crate::gen::name_alphabet();
-    let alpha: Vec<Value> = alphabet_trees(&base, &names).into_iter().filter(|u| u.get("cnf").is_none()).collect();
+    let alpha: Vec<Value> = alphabet_trees(&base, &names).into_iter().collect();
     run_structures(rep, "alphabet pass: every leaf value / member name of the alphabets at every position", &alpha, &safe_strategies, &rot, checks, true);
     // D2: name-prefix family
     let pool = ["a", "ab", "abc", "b"];
@@ -34,8 +34,11 @@ pub fn scopes(rep: &Report, checks: Checks) {
     // D4: wide containers (11 / 100 / 300 members or elements; two- and three-digit indices; > 255 disclosures)
     let wide_cfgs = |i: usize| vec![Cfg::CHEAP, Cfg { fmt: crate::codec::Fmt::Json, alg: crate::keys::Alg::HS256, decoys: i % 2 == 0, hk: crate::keys::Hk::Es }];
     run_structures_with(rep, "wide containers: arrays / objects of 11, 100, 300 entries x {NoSD, Top, All, 3 Custom with prefix-sharing indices/names} x 8-10 selections", &wide_trees(), &wide_strategies, &wide_selections, &wide_cfgs, checks);
+    // D5: cnf as an ordinary user claim (no holder key bound)
+    let nokey = |i: usize| vec![Cfg::CHEAP, Cfg { fmt: crate::codec::Fmt::Json, alg: crate::keys::ALGS[i % 3], decoys: i % 2 == 0, hk: crate::keys::Hk::None }];
+    run_structures(rep, "cnf as an ordinary user claim: 16 cnf values x 3 positions x 6 strategies x all selections, no holder key bound", &cnf_user_trees(), &cnf_strategies, &nokey, checks, true);
     // E: depth chains
-    let ch = chains(if quick { 6 } else { 8 });
+    let ch = chains(8);
     run_structures(rep, "depth chains: all object/array patterns of a single nested path", &ch, &few_strategies, &rot, checks, true);
     // E2: selections that also name always-visible / visible claims
     run_structures_named_visible(rep, "S(3,3) x all strategies x all selections, each selection additionally naming iss:true, exp:false", &trees(3, 3), &all_strats, &rot, checks);
